@@ -1028,6 +1028,17 @@ def _corpus(ctx, model, scico):
             _check(ctx, "feval." + leaf["kind"], c, impl, mod, G.np_leaf(leaf, arrs))
 
 
+def generate(ctx):
+    """ast translator (round 4): rewrites lean/Scico/Generated/ProxCalcTables.lean from the working tree of $SCICO_REPO"""
+    import proxcalc_translate
+
+    tabs = proxcalc_translate.generate()
+    ctx.extra["translated_tables"] = {"flag tables": sorted(tabs["flags"]), "call sites": len(tabs["calls"]), "defaults": len(tabs["defaults"]),
+                                      "metric functions": [m for m, _ in tabs["metrics"]], "raise sites": len(tabs["raises"]),
+                                      "prox classes": tabs["prox_classes"], "loss classes": tabs["loss_classes"]}
+    return [("Scico.Generated.ProxCalcTables", "metric functions and the reductions they call; defaults of norm / TV / ProximalAverage constructors; exception classes of the modelled argument checks (same generated module as C08)")]
+
+
 def correspond(ctx, model):
     scico = common.setup_scico()
     _corpus(ctx, model, scico)
